@@ -229,6 +229,26 @@ mod core_simd {
     }
     include!("suite.rs");
 }
+/// core-simd with `glam-assert`: the second pass for the portable-simd copies (a quarter of the volume)
+#[cfg(feature = "core")]
+mod core_asserting {
+    pub const VARIANT: &str = "core+glam-assert";
+    use ::glam_core_assert as glam;
+    pub fn raw3a(m: glam::BVec3A) -> Option<[u32; 4]> {
+        Some(unsafe { std::mem::transmute::<glam::BVec3A, [u32; 4]>(m) })
+    }
+    pub fn raw4a(m: glam::BVec4A) -> Option<[u32; 4]> {
+        Some(unsafe { std::mem::transmute::<glam::BVec4A, [u32; 4]>(m) })
+    }
+    /// Vec4's mask type in this build, and the comparison routes into BVec4A
+    #[allow(unused_imports)]
+    use self::mbvec4a as mvec4;
+    pub const A4_CMP_ROUTES: u64 = 7;
+    pub fn a4(m: glam::BVec4A) -> glam::BVec4A {
+        m
+    }
+    include!("suite.rs");
+}
 
 fn main() {
     let args = Args::parse();
@@ -243,6 +263,7 @@ fn main() {
     #[cfg(feature = "core")]
     {
         subs.extend(core_simd::subs(&args));
+        subs.extend(core_asserting::subs(&args).into_iter().map(|s| s.with_div(4)));
     }
     let code = main_with("C15", "see MANIFEST / evidence rule", &args, subs);
     std::process::exit(code);
